@@ -547,7 +547,7 @@ theorem reachList_sound (h : Heap) : ∀ (n : Nat) (i : Item) (b : Nat), b ∈ r
           | refl => exact base
           | step _ hk' ih' => exact Reach.step ih' hk'
 
-/-- a former explicit counterexample, now positive (typedpy commit 95931f6): constructing with
+/-- a former explicit counterexample, now positive (typedpy commit 89fd84a): constructing with
     `OneOf[Array[Integer], …]` no longer keeps the caller's list (cell 1) — clearing that list afterwards leaves the new
     instance as it was -/
 theorem oneOf_keeps_a_copy_today :
@@ -830,7 +830,7 @@ def oneOpts : Shape :=
 
 /-- non-vacuity, kernel-evaluated on today's table: the elements of ONE list take different options of
     `OneOf[Array, Map, String]` (the list the first, the dict the second, the string the third); under construction
-    today's OneOf keeps none of the caller's containers (each option stores its own copy), on a plain Structure as well
+    today's OneOf keeps none of the caller's containers (it stores a private deep copy), on a plain Structure as well
     as owned by an ImmutableStructure -/
 theorem wrapN_owned_example :
     (match transfer (modeOf Generated.aliasing .construct) 9 (.keyed .root [("xs", .coll .array oneOpts)]) hetHeap (.ref 0) with
